@@ -155,9 +155,19 @@ def check_integrated(ctx: Ctx, rnd, tier):
         if weighted:
             js["weights"] = P("w", w)
         got = float(process_object(js, {})())
-        f = lambda tau: mpmath.exp(a * mpmath.log(b) - mpmath.loggamma(a) + (a - 1) * mpmath.log(tau) - b * tau
-                                   + (n - 1) / 2 * mpmath.log(tau) - tau / 2 * S - (n - 1) / 2 * LOG2PI)
-        want = float(mpmath.log(mpmath.quad(f, [0, 1, 10, mpmath.inf])))
+        # the integrand is sharply peaked for large n: integrate relative to its mode, with break points around it
+        lf = lambda tau: (a * mpmath.log(b) - mpmath.loggamma(a) + (a - 1) * mpmath.log(tau) - b * tau
+                          + (n - 1) / 2 * mpmath.log(tau) - tau / 2 * S - (n - 1) / 2 * LOG2PI)
+        k = a - 1 + (n - 1) / 2
+        mode = k / (b + S / 2) if k > 0 else 0.0
+        if mode > 0:
+            top = lf(mode)
+            pts = [0, mode / 8, mode / 2, mode, 2 * mode, 4 * mode, 16 * mode, mpmath.inf]
+        else:
+            top = mpmath.mpf(0)
+            pts = [0, 1, 10, mpmath.inf]
+        with mpmath.workdps(30):
+            want = float(top + mpmath.log(mpmath.quad(lambda tau: mpmath.exp(lf(tau) - top), pts)))
         if not close(got, want, 1e-8):
             ctx.violation(f"C20:GMRFGammaIntegrated:{'weighted' if weighted else 'plain'}", f"integrated GMRF (n={n}, shape={a}, rate={b}): {got!r}, numerical integration {want!r}",
                           {"json": js})
